@@ -232,6 +232,8 @@ def main(check, argv=None):
         'library_under_test': world.REPO_SRC,
         'workers': batch['workers'],
         'harness_errors': len(batch['harness_errors']),
+        'worlds_rerun_after_wall_limit': sum(
+            1 for r in results if r.get('slow_world')),
         'replays': [os.path.relpath(p, core.VERIF_DIR) for p in reported],
     }
     if batch.get('variants_unavailable'):
@@ -264,7 +266,8 @@ def main(check, argv=None):
               f"[{fid}, hit {n}x]")
     if batch['harness_errors']:
         for h in batch['harness_errors'][:3]:
-            print("HARNESS ERROR:", str(h.get('harness_error'))[-1500:])
+            print(f"HARNESS ERROR (run {h.get('run')}):",
+                  str(h.get('harness_error'))[-1500:])
         print(f"HARNESS: {len(batch['harness_errors'])} run(s) failed in "
               f"the simulator itself; result not trusted")
         for p in reported:
